@@ -21,13 +21,13 @@ harness("c06_seek_total", props=["C06", "C10"], panic_props=["C06"], timeout=600
         assumes=["cache representation invariant: cursor <= filled <= buffer len, window inside [0,total_len]; clean buffer (no flusher)"])
 
 # ---------------------------------------------------------------- names
-for (n, tier, to) in [("c09_cmp_ascii_1_2", "quick", 300), ("c09_cmp_ascii_2_2", "quick", 400),
+for (n, tier, to) in [("c09_cmp_ascii_1_2", "quick", 1200), ("c09_cmp_ascii_2_2", "quick", 1200),
                       ("c09_cmp_ascii_3_2", "thorough", 900), ("c09_cmp_ascii_3_3", "thorough", 3600)]:
     harness(n, props=["C09", "C04", "C01", "C03"], tier=tier, timeout=to, mem=8, stubs=[FMT, STUB_UP],
             what="compare_names(a, b) == CFB order (shorter in UTF-16 units first, then upper-cased units) for ALL pairs of printable-ASCII names of the given lengths (fast path)",
             bounds="names of %s printable ASCII characters, all values" % n[-3:].replace("_", " and "),
             functions=["path::compare_names"], assumes=[A_UPTABLE])
-for (n, tier, to) in [("c09_cmp_sigma_1_2", "quick", 600), ("c09_cmp_sigma_2_2", "quick", 900),
+for (n, tier, to) in [("c09_cmp_sigma_1_2", "quick", 1800), ("c09_cmp_sigma_2_2", "quick", 1800),
                       ("c09_cmp_sigma_2_1", "thorough", 900)]:
     harness(n, props=["C09", "C04", "C01", "C03"], tier=tier, timeout=to, mem=8, stubs=[FMT, STUB_UP],
             what="compare_names == CFB order for all pairs of names over SIGMA (ASCII case pairs, digit, punctuation sorting between Z and a, caseless sharp s, e-acute pair, U+1F80/U+1F88 exceptional pair, supplementary-plane U+1D49C): general path and its agreement with the ASCII fast path",
